@@ -140,4 +140,19 @@ theorem C02_source_skeletons_5 :
     Gen.Skel.DatabaseHandle_Flush = Expected.Skel.DatabaseHandle_Flush :=
   ⟨rfl, rfl, rfl⟩
 
+/-- A database page write is validated before it reaches the file — facts proved by `decide`
+    about the skeleton of `WriteDatabaseAt` regenerated from db.go: the read-only refusal is the
+    first test; the alignment and the length of the write are tested before the one call of
+    `writeDatabasePage`, and the page is entered in the dirty set before it is written. -/
+theorem C02_database_write_is_validated_before_it_reaches_the_file :
+    let ix (sk : List (String × String)) (x : String × String) (d : Nat) := (sk.findIdx? (· == x)).getD d
+    let t := Gen.Skel.DB_WriteDatabaseAt
+    ix t ("if", "!db.Writeable()") 1000 < ix t ("if", "len(data) == 0") 0 ∧
+    ix t ("return", "return ErrReadOnlyReplica") 1000 < ix t ("call", "db.writeDatabasePage") 0 ∧
+    ix t ("if", "offset%int64(db.pageSize) != 0") 1000 < ix t ("call", "db.writeDatabasePage") 0 ∧
+    ix t ("if", "len(data) != int(db.pageSize)") 1000 < ix t ("call", "db.writeDatabasePage") 0 ∧
+    ix t ("set", "db.dirtyPageSet[pgno] = struct{}{}") 1000 < ix t ("call", "db.writeDatabasePage") 0 ∧
+    (t.filter (· == ("call", "db.writeDatabasePage"))).length = 1 := by
+  decide
+
 end LiteFSVerif.C02
